@@ -1,6 +1,9 @@
 package main
 
 import (
+	"sync"
+	"path/filepath"
+	"os"
 	"fmt"
 	"go/constant"
 	"go/token"
@@ -181,7 +184,7 @@ func fieldIs(t types.Type, idx int, structName, name string) bool {
 func Param(name string) VM {
 	return func(v ssa.Value) bool {
 		if p, ok := v.(*ssa.Parameter); ok {
-			return p.Name() == name
+			return paramIs(p, name)
 		}
 		if u, ok := v.(*ssa.UnOp); ok && u.Op == token.MUL {
 			v = u.X
@@ -191,7 +194,7 @@ func Param(name string) VM {
 			return fv.Name() == name
 		}
 		a, ok := v.(*ssa.Alloc)
-		if !ok || a.Comment != name {
+		if !ok {
 			return false
 		}
 		st := storesTo(a)
@@ -199,8 +202,66 @@ func Param(name string) VM {
 			return false
 		}
 		p, ok := st[0].(*ssa.Parameter)
-		return ok && p.Name() == name
+		return ok && a.Comment == p.Name() && paramIs(p, name)
 	}
+}
+
+// paramIs: p is the parameter the rules call `name`. Names are anchors, but a pure rename must
+// not raise an alarm: when the function no longer has a parameter of that name, the parameter at
+// the position (and of the type) recorded for that name in /verif/tables/params.tsv stands in.
+func paramIs(p *ssa.Parameter, name string) bool {
+	if p.Name() == name {
+		return true
+	}
+	fn := p.Parent()
+	if fn == nil {
+		return false
+	}
+	for _, q := range fn.Params {
+		if q.Name() == name {
+			return false
+		}
+	}
+	ent, ok := paramTable()[shortName(fn)+"|"+name]
+	if !ok {
+		return false
+	}
+	for i, q := range fn.Params {
+		if q == p {
+			return i == ent.idx && types.TypeString(p.Type(), nil) == ent.typ
+		}
+	}
+	return false
+}
+
+type paramEntry struct {
+	idx int
+	typ string
+}
+
+var (
+	paramTableOnce sync.Once
+	paramTableData map[string]paramEntry
+)
+
+func paramTable() map[string]paramEntry {
+	paramTableOnce.Do(func() {
+		paramTableData = map[string]paramEntry{}
+		data, err := os.ReadFile(filepath.Join(verifDir(), "tables", "params.tsv"))
+		if err != nil {
+			return
+		}
+		for _, l := range strings.Split(string(data), "\n") {
+			f := strings.Split(l, "\t")
+			if len(f) != 4 || strings.HasPrefix(l, "#") {
+				continue
+			}
+			var idx int
+			fmt.Sscan(f[1], &idx)
+			paramTableData[f[0]+"|"+f[2]] = paramEntry{idx, f[3]}
+		}
+	})
+	return paramTableData
 }
 
 func FreeVar(name string) VM {
@@ -810,8 +871,105 @@ func Path(root VM, path string) VM {
 func PhiNamed(name string) VM {
 	return func(v ssa.Value) bool {
 		p, ok := v.(*ssa.Phi)
-		return ok && p.Comment == name
+		return ok && phiIs(p, name)
 	}
+}
+
+// phiIs: p is the phi of the local variable the rules call `name`. When the function no longer has
+// any phi of that name (the variable was renamed), the phi at the recorded position among the
+// function's named phis of the same type (tables/locals.tsv) stands in.
+func phiIs(p *ssa.Phi, name string) bool {
+	if p.Comment == name {
+		return true
+	}
+	fn := p.Parent()
+	if fn == nil || p.Comment == "" || strings.HasPrefix(p.Comment, "range") || p.Comment == "&&" || p.Comment == "||" {
+		return false
+	}
+	ent, ok := localTable()[shortName(fn)+"|phi|"+name]
+	if !ok {
+		return false
+	}
+	ord, standIn := 0, ""
+	for _, b := range fn.Blocks {
+		for _, ins := range b.Instrs {
+			q, isPhi := ins.(*ssa.Phi)
+			if !isPhi {
+				break
+			}
+			if q.Comment == name {
+				return false // the name still exists: no stand-in
+			}
+			if q.Comment == "" || strings.HasPrefix(q.Comment, "range") || q.Comment == "&&" || q.Comment == "||" || types.TypeString(q.Type(), nil) != ent.typ {
+				continue
+			}
+			if ord == ent.idx {
+				standIn = q.Comment
+			}
+			ord++
+		}
+	}
+	return standIn != "" && p.Comment == standIn && types.TypeString(p.Type(), nil) == ent.typ
+}
+
+// allocIs: same for address-taken locals (Alloc comments).
+func allocIs(a *ssa.Alloc, name string) bool {
+	if a.Comment == name {
+		return true
+	}
+	fn := a.Parent()
+	if fn == nil || a.Comment == "" || a.Comment == "complit" || a.Comment == "varargs" {
+		return false
+	}
+	ent, ok := localTable()[shortName(fn)+"|alloc|"+name]
+	if !ok {
+		return false
+	}
+	ord, standIn := 0, ""
+	for _, b := range fn.Blocks {
+		for _, ins := range b.Instrs {
+			q, isA := ins.(*ssa.Alloc)
+			if !isA {
+				continue
+			}
+			if q.Comment == name {
+				return false
+			}
+			if q.Comment == "" || q.Comment == "complit" || q.Comment == "varargs" || types.TypeString(q.Type(), nil) != ent.typ {
+				continue
+			}
+			if ord == ent.idx {
+				standIn = q.Comment
+			}
+			ord++
+		}
+	}
+	return standIn != "" && a.Comment == standIn && types.TypeString(a.Type(), nil) == ent.typ
+}
+
+var (
+	localTableOnce sync.Once
+	localTableData map[string]paramEntry
+)
+
+func localTable() map[string]paramEntry {
+	localTableOnce.Do(func() {
+		localTableData = map[string]paramEntry{}
+		data, err := os.ReadFile(filepath.Join(verifDir(), "tables", "locals.tsv"))
+		if err != nil {
+			return
+		}
+		for _, l := range strings.Split(string(data), "\n") {
+			f := strings.Split(l, "\t")
+			if len(f) != 5 || strings.HasPrefix(l, "#") {
+				continue
+			}
+			var idx int
+			fmt.Sscan(f[3], &idx)
+			localTableData[f[0]+"|"+f[1]+"|"+f[2]] = paramEntry{idx, f[4]}
+		}
+	})
+	return localTableData
 }
 
 // ConstNamed matches a constant operand equal to the named package-level constant
